@@ -77,6 +77,239 @@ func isRunCall(n ast.Node) (*ast.CallExpr, bool) {
 	return c, true
 }
 
+
+// ---- census of the read / compile phases (second part of coq/Generated/Reentry.v) ----
+
+// structFields returns the field names of `type <name> struct` in file af.
+func structFields(af *ast.File, name string) []string {
+	var out []string
+	for _, d := range af.Decls {
+		gd, ok := d.(*ast.GenDecl)
+		if !ok {
+			continue
+		}
+		for _, sp := range gd.Specs {
+			ts, ok := sp.(*ast.TypeSpec)
+			if !ok || ts.Name.Name != name {
+				continue
+			}
+			st, ok := ts.Type.(*ast.StructType)
+			if !ok {
+				continue
+			}
+			for _, f := range st.Fields.List {
+				for _, n := range f.Names {
+					out = append(out, n.Name)
+				}
+			}
+		}
+	}
+	return out
+}
+
+func findFunc(af *ast.File, name string) *ast.FuncDecl {
+	for _, d := range af.Decls {
+		if fd, ok := d.(*ast.FuncDecl); ok && fd.Body != nil && fnName(fd) == name {
+			return fd
+		}
+	}
+	return nil
+}
+
+// clearedFields: the fields of the receiver that the TOP-LEVEL statements of fd assign
+// unconditionally (recv.f = .., recv.f.Reset(), recv.f = recv.f[:0]); calls of other methods of
+// receiver fields are reported as "f.Method()".
+func clearedFields(fd *ast.FuncDecl) (fields []string, calls []string) {
+	recv := fd.Recv.List[0].Names[0].Name
+	for _, st := range fd.Body.List {
+		switch s := st.(type) {
+		case *ast.AssignStmt:
+			for _, l := range s.Lhs {
+				if se, ok := l.(*ast.SelectorExpr); ok {
+					if id, ok := se.X.(*ast.Ident); ok && id.Name == recv {
+						fields = append(fields, se.Sel.Name)
+					}
+				}
+			}
+		case *ast.ExprStmt:
+			if c, ok := s.X.(*ast.CallExpr); ok {
+				if se, ok := c.Fun.(*ast.SelectorExpr); ok {
+					if inner, ok := se.X.(*ast.SelectorExpr); ok {
+						if id, ok := inner.X.(*ast.Ident); ok && id.Name == recv {
+							if se.Sel.Name == "Reset" && len(c.Args) == 0 && inner.Sel.Name != "lexer" {
+								fields = append(fields, inner.Sel.Name) // bytes.Buffer.Reset()
+							} else {
+								calls = append(calls, inner.Sel.Name+"."+se.Sel.Name)
+							}
+						}
+					}
+				}
+			}
+		case *ast.IfStmt:
+			// `if p.stop != nil { p.stop(); p.stop = nil }`: the field ends up nil either way
+			txt := strings.ReplaceAll(show(s), " ", "")
+			txt = strings.ReplaceAll(strings.ReplaceAll(txt, "\n", ""), "\t", "")
+			for _, f := range []string{"stop"} {
+				if strings.HasPrefix(txt, "if"+recv+"."+f+"!=nil{") && strings.Contains(txt, recv+"."+f+"=nil") {
+					fields = append(fields, f)
+				}
+			}
+		}
+	}
+	sort.Strings(fields)
+	sort.Strings(calls)
+	return
+}
+
+func strList(xs []string) string {
+	var q []string
+	for _, x := range xs {
+		q = append(q, fmt.Sprintf("%q", x))
+	}
+	return "[" + strings.Join(q, "; ") + "]"
+}
+
+func phaseCensus(repo string, sb *strings.Builder) string {
+	parse := func(base string) *ast.File {
+		af, err := parser.ParseFile(fset, filepath.Join(repo, "zygo", base), nil, 0)
+		if err != nil {
+			die("parse %s: %v", base, err)
+		}
+		return af
+	}
+	lex, par, gen, envf, expr := parse("lexer.go"), parse("parser.go"), parse("generator.go"), parse("environment.go"), parse("expressions.go")
+	lf, pf := structFields(lex, "Lexer"), structFields(par, "Parser")
+	if len(lf) == 0 || len(pf) == 0 {
+		die("type Lexer / type Parser struct not found")
+	}
+	lreset, rain := findFunc(lex, "Lexer.Reset"), findFunc(par, "Parser.ResetAddNewInput")
+	if lreset == nil || rain == nil {
+		die("Lexer.Reset / Parser.ResetAddNewInput not found")
+	}
+	lclr, _ := clearedFields(lreset)
+	pclr, pcalls := clearedFields(rain)
+	// parser.recur: every increment is directly followed by a deferred decrement
+	incs, balanced := 0, 0
+	ast.Inspect(par, func(x ast.Node) bool {
+		bl, ok := x.(*ast.BlockStmt)
+		if !ok {
+			return true
+		}
+		for i, st := range bl.List {
+			if id, ok := st.(*ast.IncDecStmt); ok && strings.HasSuffix(show(id.X), ".recur") && id.Tok == token.INC {
+				incs++
+				if i+1 < len(bl.List) {
+					if d, ok := bl.List[i+1].(*ast.DeferStmt); ok && strings.Contains(strings.ReplaceAll(show(d), " ", ""), ".recur--") {
+						balanced++
+					}
+				}
+			}
+		}
+		return true
+	})
+	// every load entry point resets the parser before it reads: the first statement of the function
+	resetFirst := func(af *ast.File, fn string, call string) bool {
+		fd := findFunc(af, fn)
+		if fd == nil {
+			die("%s not found", fn)
+		}
+		return len(fd.Body.List) > 0 && strings.Contains(strings.ReplaceAll(show(fd.Body.List[0]), " ", ""), call)
+	}
+	loadStreamResets := resetFirst(envf, "Zlisp.LoadStream", "env.parser.ResetAddNewInput(")
+	// GenerateForLoop: the statement after `gen.env.loopstack.Push(loop)` is `defer gen.env.loopstack.Pop()`, and
+	// no other Pop of the loop stack exists in the generator
+	fl := findFunc(gen, "Generator.GenerateForLoop")
+	if fl == nil {
+		die("Generator.GenerateForLoop not found")
+	}
+	pushes, deferred := 0, 0
+	for i, st := range fl.Body.List {
+		if strings.ReplaceAll(show(st), " ", "") == "gen.env.loopstack.Push(loop)" {
+			pushes++
+			if i+1 < len(fl.Body.List) && strings.ReplaceAll(show(fl.Body.List[i+1]), " ", "") == "defergen.env.loopstack.Pop()" {
+				deferred++
+			}
+		}
+	}
+	allPush, allPop := 0, 0
+	ast.Inspect(gen, func(x ast.Node) bool {
+		if c, ok := x.(*ast.CallExpr); ok {
+			t := strings.ReplaceAll(show(c.Fun), " ", "")
+			if strings.HasSuffix(t, "loopstack.Push") {
+				allPush++
+			}
+			if strings.HasSuffix(t, "loopstack.Pop") {
+				allPop++
+			}
+		}
+		return true
+	})
+	// LoadExpressions: env.mainfunc.fun is appended to only after GenerateBegin returned without error
+	le := findFunc(envf, "Zlisp.LoadExpressions")
+	if le == nil {
+		die("Zlisp.LoadExpressions not found")
+	}
+	genAt, retAt, appAt := -1, -1, -1
+	for i, st := range le.Body.List {
+		t := strings.ReplaceAll(show(st), " ", "")
+		switch {
+		case strings.HasPrefix(t, "err:=gen.GenerateBegin("):
+			genAt = i
+		case genAt >= 0 && retAt < 0 && strings.HasPrefix(t, "iferr!=nil{") && strings.Contains(t, "returnerr"):
+			retAt = i
+		case strings.HasPrefix(t, "env.mainfunc.fun=append(env.mainfunc.fun,"):
+			appAt = i
+		}
+	}
+	appendAfter := genAt >= 0 && retAt == genAt+1 && appAt > retAt
+	// SexpLazyArg.Force: every `lazy.Forced = true` that follows the Run call comes after the error return of Run
+	fo := findFunc(expr, "SexpLazyArg.Force")
+	if fo == nil {
+		die("SexpLazyArg.Force not found")
+	}
+	runAt, forcedBefore, forcedAfter, guard := -1, 0, 0, false
+	for i, st := range fo.Body.List {
+		t := strings.ReplaceAll(show(st), " ", "")
+		if strings.Contains(t, "env.Run()") && runAt < 0 {
+			runAt = i
+			if i+1 < len(fo.Body.List) {
+				n := strings.ReplaceAll(show(fo.Body.List[i+1]), " ", "")
+				guard = strings.HasPrefix(n, "iferr!=nil{") && strings.Contains(n, "return")
+			}
+			continue
+		}
+		if _, ok := st.(*ast.AssignStmt); ok && t == "lazy.Forced=true" {
+			if runAt < 0 {
+				forcedBefore++
+			} else {
+				forcedAfter++
+			}
+		}
+	}
+	if runAt < 0 {
+		die("SexpLazyArg.Force no longer calls env.Run()")
+	}
+	b := func(x bool) string {
+		if x {
+			return "true"
+		}
+		return "false"
+	}
+	sb.WriteString("\n(* census of the read / compile phases: see Model/Phases.v part 6 *)\n")
+	fmt.Fprintf(sb, "Definition lexer_fields : list string := %s.\n", strList(lf))
+	fmt.Fprintf(sb, "Definition lexer_reset_clears : list string := %s.\n", strList(lclr))
+	fmt.Fprintf(sb, "Definition parser_fields : list string := %s.\n", strList(pf))
+	fmt.Fprintf(sb, "Definition parser_reset_clears : list string := %s.\n", strList(pclr))
+	fmt.Fprintf(sb, "Definition parser_reset_calls : list string := %s.\n", strList(pcalls))
+	fmt.Fprintf(sb, "Definition parser_recur_incs : nat := %d.\nDefinition parser_recur_balanced : nat := %d.\n", incs, balanced)
+	fmt.Fprintf(sb, "Definition load_stream_resets_first : bool := %s.\n", b(loadStreamResets))
+	fmt.Fprintf(sb, "Definition forloop_pushes : nat := %d.\nDefinition forloop_deferred_pops : nat := %d.\n", pushes, deferred)
+	fmt.Fprintf(sb, "Definition generator_loop_pushes : nat := %d.\nDefinition generator_loop_pops : nat := %d.\n", allPush, allPop)
+	fmt.Fprintf(sb, "Definition load_appends_after_compile : bool := %s.\n", b(appendAfter))
+	fmt.Fprintf(sb, "Definition force_run_guarded : bool := %s.\nDefinition force_marks_before_run : nat := %d.\nDefinition force_marks_after_run : nat := %d.\n", b(guard), forcedBefore, forcedAfter)
+	return fmt.Sprintf("lexer fields %d (reset clears %d), parser fields %d (reset clears %d)", len(lf), len(lclr), len(pf), len(pclr))
+}
+
 type rec struct {
 	fn, file                           string
 	runs, captures, restores, guarded int
@@ -298,8 +531,10 @@ func main() {
 	}
 	sb.WriteString("].\n\n")
 	fmt.Fprintf(&sb, "Definition run_loop_restores : bool := %s.\n", b(runLoop))
+	phaseMsg := phaseCensus(*repo, &sb)
 	if err := os.WriteFile(*out, []byte(sb.String()), 0644); err != nil {
 		die("write: %v", err)
 	}
 	fmt.Printf("reentry: %d re-entry functions, %d capture sites, run loop restores: %v\n", len(recs), len(capts), runLoop)
+	fmt.Println("reentry: " + phaseMsg)
 }
